@@ -11,6 +11,8 @@ Line protocol for the server session model (domain `sess`).
   sess frame <conn>      (the client sends an interleaved frame)  → <summary>
   sess response <conn>   (the client sends an RTSP response)      → <summary>
   sess preq <same arguments as req>    (pipelined: sent without waiting)     → st <status> cs <cseq|-> | noconn
+  sess silence   (all peers silent for longer than every timeout)            → <summary>
+  sess media <sid>   (does media flow to the reader / from the publisher?)    → flow <0|1|->
   sess sync                                                                    → <summary>
   sess rfc <state> <method>                                      → <allowedStrict> <allowed> <next state>   (Spec/Rfc2326.lean)
   sess req <conn> <method> <cseq|-> <star 0|1> <sid n|w|k> <path> <track k|x> <transports|-> <ct.sdp.n> <hstatus> <herr 0|1>
@@ -152,6 +154,17 @@ def mk : IO Handler := do
       | some s, some m => return s!"{b2s (allowedStrict s m)} {b2s (allowed s m)} {stateName (next s m)}"
       | _, _ => return "bad-op"
     | ["sync"] => return summary (← st.get)
+    | ["silence"] =>
+      let s := (stepEv (← cfgR.get) (← st.get) .silence).1
+      st.set s
+      return summary s
+    | ["media", sid] =>
+      match sid.toNat? with
+      | some sid =>
+        match findSession (← st.get) sid with
+        | some ss => return s!"flow {b2s (flows ss)}"
+        | none => return "flow -"
+      | none => return "bad-op"
     | "preq" :: rest =>
       -- a pipelined request: same semantics, only status and CSeq are observable per request
       match parseReq rest with
